@@ -229,6 +229,40 @@ def run_shard(desc):
                                               "seed": seed_of(), "history": "makerings(%g,%g) after earlier tables" % (lim, tol)}, {"n_candidates": len(cands)})
                             sh.evaluations += 1
                             sh.nontrivial += 1
+    # history across OBJECTS: another unit cell with the same six parameters but a different centring is used first (same process, same
+    # ring numbers, default ring tolerance); the ring numbers of the two objects mean different reflections
+    if r1 == 0 and len(rings) >= 2:
+        from ImageD11 import unitcell as _ucm3
+        other = {"P": "I", "I": "F", "F": "P", "C": "P", "R": "P", "A": "P", "B": "P"}[sym]
+        lim0 = uc.ringds[min(len(uc.ringds) - 1, nr)] + 1e-3
+        ua = _ucm3.unitcell(cell, other)
+        ua.makerings(lim0)
+        for ra in range(min(2, len(ua.ringds))):
+            for rb in range(ra, min(3, len(ua.ringds))):
+                ha = np.array(ua.ringhkls[ua.ringds[ra]][0], float); hb = np.array(ua.ringhkls[ua.ringds[rb]][-1], float)
+                try:
+                    ua.orient(ra, np.dot(UB, ha), rb, np.dot(UB, hb), crange=1e-6)
+                except Exception:
+                    pass
+        ub_ = _ucm3.unitcell(cell, sym)
+        ub_.makerings(lim0)
+        for ra in range(min(2, len(ub_.ringds))):
+            for rb in range(ra, min(3, len(ub_.ringds))):
+                Ha = [tuple(int(x) for x in h) for h in ub_.ringhkls[ub_.ringds[ra]]]
+                Hb = [tuple(int(x) for x in h) for h in ub_.ringhkls[ub_.ringds[rb]]]
+                for h1 in Ha[:3]:
+                    for h2 in Hb[:4]:
+                        a1, a2 = np.array(h1, float), np.array(h2, float)
+                        c = np.dot(a1, np.dot(gi, a2)) / np.sqrt(np.dot(a1, np.dot(gi, a1)) * np.dot(a2, np.dot(gi, a2)))
+                        if abs(c) >= 0.979:
+                            continue
+                        ub_.orient(ra, np.dot(UB, a1), rb, np.dot(UB, a2), crange=1e-6)
+                        if not any(O.lattice_equivalent(u, ubi_true) for u in ub_.UBIlist):
+                            sh.violation("orient[after another centring of the same cell was used]:true-orientation-not-among-candidates",
+                                         {"lattice": li, "cell": cell, "sym": sym, "rot": ri, "ring1": ra, "ring2": rb, "h1": list(h1), "h2": list(h2), "seed": seed_of(),
+                                          "history": "unitcell(cell, %r) used first" % other}, {"n_candidates": len(ub_.UBIlist)})
+                        sh.evaluations += 1
+                        sh.nontrivial += 1
     return sh
 
 
